@@ -1,5 +1,10 @@
 package main
 
-import "os"
+import (
+	"os"
+	"path/filepath"
+)
 
 func osReadFile(p string) ([]byte, error) { return os.ReadFile(p) }
+
+func filepathGlob(p string) ([]string, error) { return filepath.Glob(p) }
